@@ -547,9 +547,9 @@ func (e *Engine) bytesToMag(st *State, s SliceV) *Term {
 	acc := ts.Const(8*n, 0)
 	for i := 0; i < n; i++ {
 		b := e.byteAt(st, s.obj, s.off, i)
-		shifted := ts.Concat(ts.Extract(acc, 8*n-9, 0), b)
-		if n == 1 {
-			shifted = b
+		shifted := b
+		if n > 1 {
+			shifted = ts.Concat(ts.Extract(acc, 8*n-9, 0), b)
 		}
 		acc = ts.Ite(ts.Ult(e.c64(int64(i)), s.len), shifted, acc)
 	}
